@@ -2,6 +2,7 @@
    the three sets, determinism of settle / whole runs, exactness of the timeline and the clock process. *)
 From Coq Require Import ZArith List Bool Lia Permutation.
 From V.Model Require Import Bits Shape Ast Denote PyRTL PyEval Stmt Process Engine.
+From V.Proofs Require Import BitsP ShapeP ExprP StmtP ProcessP.
 Import ListNotations.
 Open Scope Z_scope.
 
@@ -240,15 +241,44 @@ Qed.
 
 (* ================================================================ 1b: order of `_processes` *)
 (* write_disjoint: every process k writes only inside its own bit set `own k i` of slot i, the own sets of two
-   processes are disjoint, and run() depends on `next` only through the process's own bits (an RTL sync process
-   starts from slots[i].next of the signals it drives). *)
+   processes are disjoint, and run() depends on `next` only through the process's own bits, up to the bits of the written values
+   that the masks discard (an RTL sync process starts from slots[i].next of the signals it drives). *)
+(* two update() calls are equivalent when they name the same slot and mask and agree under the mask *)
+Definition weq (w w' : write) : Prop :=
+  w_sig w = w_sig w' /\ w_mask w = w_mask w' /\ Z.land (w_val w) (w_mask w) = Z.land (w_val w') (w_mask w').
+Definition weqs : list write -> list write -> Prop := Forall2 weq.
+
+Lemma weqs_refl ws : weqs ws ws.
+Proof. induction ws; constructor; auto. repeat split. Qed.
+
+Lemma su_val_mask x v v' m : Z.land v m = Z.land v' m -> slot_update x v m = slot_update x v' m.
+Proof.
+  intros H. apply Z.bits_inj'. intros n _. rewrite !su_bits.
+  assert (E := f_equal (fun z => Z.testbit z n) H). simpl in E. rewrite !Z.land_spec in E.
+  destruct (Z.testbit m n); auto. rewrite !andb_true_r in E. exact E.
+Qed.
+
+Lemma slot_apply_weq i s w w' : weq w w' -> slot_apply i s w = slot_apply i s w'.
+Proof.
+  intros (E1 & E2 & E3). unfold slot_apply. rewrite <- E1, <- E2.
+  rewrite (su_val_mask (sn s) (w_val w) (w_val w') (w_mask w)) by (rewrite E3, E2; reflexivity). reflexivity.
+Qed.
+
+Lemma apply_writes_weqs ws ws' sl : weqs ws ws' -> apply_writes ws sl = apply_writes ws' sl.
+Proof.
+  intros H. unfold apply_writes, mapi. apply mapi_from_ext. intros i x. revert x.
+  induction H as [|w w' l l' Hw Hl IH]; intros x; simpl; auto. rewrite (slot_apply_weq i x w w' Hw). apply IH.
+Qed.
+
 Record disc (ps : list proc) (own : nat -> nat -> Z) : Prop := {
   d_disj : forall a b i, a <> b -> Z.land (own a i) (own b i) = 0;
   d_within : forall k l res cu nx w, In w (r_writes (p_run (nth k ps no_proc) l res cu nx)) ->
                Z.land (w_mask w) (Z.lnot (own k (w_sig w))) = 0;
   d_reads : forall k l res cu nx nx',
                (forall i, Z.land (nth i nx 0) (own k i) = Z.land (nth i nx' 0) (own k i)) ->
-               p_run (nth k ps no_proc) l res cu nx = p_run (nth k ps no_proc) l res cu nx' }.
+               r_local (p_run (nth k ps no_proc) l res cu nx) = r_local (p_run (nth k ps no_proc) l res cu nx') /\
+               r_delay (p_run (nth k ps no_proc) l res cu nx) = r_delay (p_run (nth k ps no_proc) l res cu nx') /\
+               weqs (r_writes (p_run (nth k ps no_proc) l res cu nx)) (r_writes (p_run (nth k ps no_proc) l res cu nx')) }.
 
 Definition write_disjoint (ps : list proc) : Prop := exists own, disc ps own.
 
@@ -277,13 +307,20 @@ Section ProcOrder.
 
   Lemma proc_step_reads k now p cu nx nx' :
     (forall i, Z.land (nth i nx 0) (own k i) = Z.land (nth i nx' 0) (own k i)) ->
-    proc_step (nth k ps no_proc) now p cu nx = proc_step (nth k ps no_proc) now p cu nx'.
+    fst (proc_step (nth k ps no_proc) now p cu nx) = fst (proc_step (nth k ps no_proc) now p cu nx') /\
+    weqs (snd (proc_step (nth k ps no_proc) now p cu nx)) (snd (proc_step (nth k ps no_proc) now p cu nx')).
   Proof.
-    intros H. unfold proc_step. destruct (p_trig (nth k ps no_proc)).
-    - rewrite (d_reads _ _ D k _ _ cu nx nx' H). reflexivity.
+    intros H. unfold proc_step. cbv zeta beta. destruct (p_trig (nth k ps no_proc)).
+    - destruct (d_reads _ _ D k (ps_local p) [] cu nx nx' H) as (E1 & E2 & E3).
+      cbn [fst snd]. rewrite E1, E2. split; auto.
     - destruct (ps_first p).
-      + destruct (has_changed (t :: l)); auto. rewrite (d_reads _ _ D k _ _ cu nx nx' H). reflexivity.
-      + destruct (t_broken (ps_trig p)); auto. rewrite (d_reads _ _ D k _ _ cu nx nx' H). reflexivity.
+      + destruct (has_changed (t :: l)); [|split; [reflexivity|apply weqs_refl]].
+        destruct (d_reads _ _ D k (ps_local p) (compute_result cu (fresh_trig (t :: l) false now)) cu nx nx' H)
+          as (E1 & E2 & E3).
+        cbn [fst snd]. rewrite E1, E2. split; auto.
+      + destruct (t_broken (ps_trig p)); [split; [reflexivity|apply weqs_refl]|].
+        destruct (d_reads _ _ D k (ps_local p) (ps_res p) cu nx nx' H) as (E1 & E2 & E3).
+        cbn [fst snd]. rewrite E1, E2. split; auto.
   Qed.
 
   Lemma run_proc_runnable st k :
@@ -318,10 +355,13 @@ Section ProcOrder.
       { intros w Hw. eapply sub_disj_other; [apply (proc_step_within a _ _ _ _ _ Hw)|apply (d_disj _ _ D); auto]. }
       assert (Fb : forall w, In w (snd Xb) -> Z.land (w_mask w) (own a (w_sig w)) = 0).
       { intros w Hw. eapply sub_disj_other; [apply (proc_step_within b _ _ _ _ _ Hw)|apply (d_disj _ _ D); auto]. }
-      rewrite (proc_step_reads b _ _ _ (nexts (apply_writes (snd Xa) (e_slots st))) (nexts (e_slots st)))
-        by (apply nexts_apply_writes_frame; exact Fa).
-      rewrite (proc_step_reads a _ _ _ (nexts (apply_writes (snd Xb) (e_slots st))) (nexts (e_slots st)))
-        by (apply nexts_apply_writes_frame; exact Fb).
+      destruct (proc_step_reads b (e_now st) (nth b (e_procs st) no_pstate) (currs (e_slots st))
+                  (nexts (apply_writes (snd Xa) (e_slots st))) (nexts (e_slots st))
+                  (nexts_apply_writes_frame _ _ _ Fa)) as [Eb1 Eb2].
+      destruct (proc_step_reads a (e_now st) (nth a (e_procs st) no_pstate) (currs (e_slots st))
+                  (nexts (apply_writes (snd Xb) (e_slots st))) (nexts (e_slots st))
+                  (nexts_apply_writes_frame _ _ _ Fb)) as [Ea1 Ea2].
+      rewrite Eb1, Ea1. rewrite (apply_writes_weqs _ _ _ Eb2), (apply_writes_weqs _ _ _ Ea2).
       fold Xa Xb.
       rewrite (apply_writes_comm (snd Xa) (snd Xb)).
       + rewrite (set_nth_comm b a) by auto. reflexivity.
@@ -1056,7 +1096,8 @@ Proof.
       destruct (negb (r =? 0)); simpl in H; [destruct H as [<-|[]]; reflexivity|].
       destruct (negb (c =? 0)); simpl in H; [destruct H as [<-|[]]; reflexivity|tauto].
     + destruct k; simpl in H; tauto.
-  - intros k l res cu nx nx' _. destruct k as [|[|[|k]]]; try reflexivity. destruct k; reflexivity.
+  - intros k l res cu nx nx' _. destruct k as [|[|[|k]]]; try (repeat split; apply weqs_refl).
+    destruct k; repeat split; apply weqs_refl.
 Qed.
 
 Lemma ex_write_disjoint : write_disjoint ex_ps.
@@ -1073,3 +1114,594 @@ Lemma write_collision_order_dependent :
   Permutation [0%nat; 1%nat] [1%nat; 0%nat] /\
   fold_left (run_proc bad_ps) [0%nat; 1%nat] bad_st <> fold_left (run_proc bad_ps) [1%nat; 0%nat] bad_st.
 Proof. split; [apply perm_swap|]. vm_compute. discriminate. Qed.
+
+(* ================================================================ testbenches run in insertion order *)
+Lemma trig_step_trace st o : e_trace (trig_step st o) = e_trace st.
+Proof.
+  destruct o; simpl.
+  - destruct (t_active (ps_trig (nth k (e_procs st) no_pstate))); auto.
+  - destruct (t_active (tb_trig (nth k (e_tbs st) no_tb))); auto.
+Qed.
+
+Lemma run_proc_trace ps st k : e_trace (run_proc ps st k) = e_trace st.
+Proof. unfold run_proc. destruct (ps_run _); auto. destruct proc_step; reflexivity. Qed.
+
+Lemma commit_slot_trace ps x i : e_trace (fst (commit_slot ps x i)) = e_trace (fst x).
+Proof.
+  destruct x as [st ch]. unfold commit_slot. destruct (nth_error (e_slots st) i); auto.
+  destruct (sp s && negb (sc s =? sn s)); auto.
+Qed.
+
+Lemma run_delta_trace ps o st : e_trace (fst (run_delta ps o st)) = e_trace st.
+Proof.
+  unfold run_delta.
+  destruct (fold_left (commit_slot ps) (o_commit o)
+              (fold_left (run_proc ps) (o_proc o) (fold_left trig_step (o_trig o) st), false)) as [st3 ch] eqn:E.
+  cbn [fst e_trace].
+  assert (G : forall oo x, e_trace (fst (fold_left (commit_slot ps) oo x)) = e_trace (fst x)).
+  { induction oo; intros; simpl; auto. rewrite IHoo. apply commit_slot_trace. }
+  specialize (G (o_commit o) (fold_left (run_proc ps) (o_proc o) (fold_left trig_step (o_trig o) st), false)).
+  rewrite E in G. cbn [fst] in G. rewrite G.
+  assert (G2 : forall oo s, e_trace (fold_left (run_proc ps) oo s) = e_trace s).
+  { induction oo; intros; simpl; auto. rewrite IHoo. apply run_proc_trace. }
+  rewrite G2.
+  assert (G3 : forall oo s, e_trace (fold_left trig_step oo s) = e_trace s).
+  { induction oo; intros; simpl; auto. rewrite IHoo. apply trig_step_trace. }
+  apply G3.
+Qed.
+
+Lemma settle_trace ps orc fuel : forall st, e_trace (fst (settle ps orc fuel st)) = e_trace st.
+Proof.
+  induction fuel as [|f IH]; intros st; simpl; auto.
+  pose proof (run_delta_trace ps (orc (e_deltas st)) st) as H.
+  destruct (run_delta ps (orc (e_deltas st)) st) as [st' c]. simpl in H. destruct c; simpl; auto.
+  rewrite IH. auto.
+Qed.
+
+(* st' extends the trace of st by records that all belong to testbench k *)
+Definition ext (k : nat) (st st' : estate) : Prop :=
+  exists tr, e_trace st' = e_trace st ++ tr /\ Forall (fun r => fst r = k) tr.
+
+Lemma ext_refl k st st' : e_trace st' = e_trace st -> ext k st st'.
+Proof. intros H. exists []. rewrite app_nil_r. auto. Qed.
+
+Lemma ext_trans k a b c : ext k a b -> ext k b c -> ext k a c.
+Proof.
+  intros (t1 & E1 & F1) (t2 & E2 & F2). exists (t1 ++ t2). split.
+  - rewrite E2, E1, app_assoc. reflexivity.
+  - apply Forall_app; auto.
+Qed.
+
+Lemma ext_tb_put k st t tr : ext k st (tb_put st k t tr).
+Proof.
+  exists (map (pair k) tr). split; [reflexivity|]. apply Forall_forall. intros r H.
+  apply in_map_iff in H. destruct H as (x & <- & _). reflexivity.
+Qed.
+
+Lemma ext_tb_set k ps orc sfuel sig sh v st : ext k st (tb_set ps orc sfuel sig sh v st).
+Proof. apply ext_refl. unfold tb_set. rewrite settle_trace. reflexivity. Qed.
+
+Lemma tb_exec_ext ps orc sfuel fuel k : forall st, ext k st (tb_exec ps orc sfuel fuel k st).
+Proof.
+  induction fuel as [|f IH]; intros st; [apply ext_refl; reflexivity|].
+  cbn [tb_exec]. cbv zeta.
+  destruct (tb_mode (nth k (e_tbs st) no_tb) =? 0).
+  - destruct (tb_ops (nth k (e_tbs st) no_tb)) as [|[sig sh v|sig|spec b|spec|spec n] r]; try apply ext_tb_put.
+    + eapply ext_trans; [apply (ext_tb_set k ps orc sfuel sig sh v st)|].
+      eapply ext_trans; [apply ext_tb_put|apply IH].
+    + eapply ext_trans; [apply ext_tb_put|apply IH].
+  - destruct (t_broken (tb_trig (nth k (e_tbs st) no_tb))); [apply ext_tb_put|].
+    destruct (tb_mode (nth k (e_tbs st) no_tb) =? 1); [eapply ext_trans; [apply ext_tb_put|apply IH]|].
+    destruct (tick_fmt (tb_res (nth k (e_tbs st) no_tb))) as [|c [|r vs]]; try apply ext_tb_put.
+    destruct (negb (r =? 0)); [apply ext_tb_put|].
+    destruct (tb_mode (nth k (e_tbs st) no_tb) =? 2).
+    + destruct (negb (last vs 0 =? 0)); [eapply ext_trans; [apply ext_tb_put|apply IH]|apply ext_tb_put].
+    + destruct (tb_cnt (nth k (e_tbs st) no_tb)) as [|[|m]];
+        try (eapply ext_trans; [apply ext_tb_put|apply IH]); apply ext_tb_put.
+Qed.
+
+(* one pass over the testbench list: the new trace is the concatenation, in list order, of one segment per
+   testbench, and the segment of testbench k holds only records made by testbench k *)
+Lemma tb_pass_segments ps orc sfuel ks : forall acc,
+  exists segs, e_trace (fst (tb_pass ps orc sfuel ks acc)) = e_trace (fst acc) ++ concat segs /\
+               Forall2 (fun k seg => Forall (fun r => fst r = k) seg) ks segs.
+Proof.
+  induction ks as [|k r IH]; intros [st ran]; cbn [tb_pass].
+  - exists []. simpl. rewrite app_nil_r. auto.
+  - cbv zeta. destruct (tb_run (nth k (e_tbs st) no_tb)).
+    + match goal with |- context [tb_pass ps orc sfuel r (?X, true)] => destruct (IH (X, true)) as (segs & E & F);
+        assert (Hx : ext k st X) end.
+      { eapply ext_trans; [apply ext_tb_put|apply tb_exec_ext]. }
+      destruct Hx as (t1 & E1 & F1). exists (t1 :: segs). split.
+      * rewrite E. cbn [fst]. rewrite E1. simpl. rewrite app_assoc. reflexivity.
+      * constructor; auto.
+    + destruct (IH (st, ran)) as (segs & E & F). exists ([] :: segs). split; [exact E|].
+      constructor; auto.
+Qed.
+
+Lemma tb_pass_sequential ps orc sfuel ks ks' acc :
+  tb_pass ps orc sfuel (ks ++ ks') acc = tb_pass ps orc sfuel ks' (tb_pass ps orc sfuel ks acc).
+Proof.
+  revert acc; induction ks as [|k r IH]; intros [st ran]; [reflexivity|].
+  cbn [app tb_pass]. cbv zeta. destruct (tb_run (nth k (e_tbs st) no_tb)); apply IH.
+Qed.
+
+(* advance() runs the testbenches in the order in which they were added (seq 0 n), every time step, for any list of
+   testbench scripts: the records of testbench i made in one pass precede those of testbench j for i < j, and
+   testbench j starts from the state testbench i left (including everything its set() calls settled) *)
+Lemma testbench_order_is_insertion_order ps orc sfuel st ran :
+  exists segs,
+    e_trace (fst (tb_pass ps orc sfuel (seq 0 (length (e_tbs st))) (st, ran))) = e_trace st ++ concat segs /\
+    Forall2 (fun k seg => Forall (fun r => fst r = k) seg) (seq 0 (length (e_tbs st))) segs.
+Proof. exact (tb_pass_segments ps orc sfuel (seq 0 (length (e_tbs st))) (st, ran)). Qed.
+
+(* ================================================================ compiled RTL processes are mask-local *)
+(* A compiled statement list transforms `next` bit-locally: bit b (below the width) of signal i after the statements
+   is either decided by `curr` alone or is bit b of signal i before; and a signal is either left exactly as it was
+   or holds a value inside its shape, the choice again being made by `curr` alone. *)
+Section Locality.
+  Variable ss : nat -> shape.
+  Hypothesis Hss : forall i, wf_shape (ss i) = true.
+
+  Definition Dk (i : nat) (e nx e' nx' : env) : Prop :=
+    (e i = nx i /\ e' i = nx' i) \/ (in_range (ss i) (e i) /\ in_range (ss i) (e' i)).
+
+  Lemma Dk_id i nx nx' : Dk i nx nx nx' nx'.
+  Proof. left; auto. Qed.
+
+  Lemma Dk_comp i e1 e e1' e' nx nx' : Dk i e1 e e1' e' -> Dk i e nx e' nx' -> Dk i e1 nx e1' nx'.
+  Proof.
+    intros [[A B]|[A B]] H; [|right; auto].
+    destruct H as [[C E]|[C E]]; [left; split; congruence|right; rewrite A, B; auto].
+  Qed.
+
+  Lemma assign_rtl_dich curr lhs : sig_ok ss lhs ->
+    forall arg arg' nx nx' i, Dk i (assign_rtl curr lhs arg nx) nx (assign_rtl curr lhs arg' nx') nx'.
+  Proof.
+    induction lhs as [v s|j s|o a IHa|o a b0 IHa IHb|a lo hi IHa|a off w st IHa IHoff|l IH|t cs IHt IHcs]
+      using expr_ind'; intros Hsig arg arg' nx nx' i; simpl in Hsig; try (simpl; apply Dk_id).
+    - simpl. unfold Dk, upd. destruct (Nat.eqb i j) eqn:E; [|left; auto].
+      apply Nat.eqb_eq in E. subst j s. right. rewrite !rsign_norm by auto. split; apply norm_in_range; auto.
+    - destruct o; simpl; try apply Dk_id; apply IHa; auto.
+    - simpl. apply IHa; auto.
+    - simpl. apply IHa; auto.
+    - apply (proj1 (sig_ok_cat ss l)) in Hsig. simpl.
+      assert (G : forall ps, Forall (fun p => sig_ok ss p -> forall arg arg' nx nx' i,
+                     Dk i (assign_rtl curr p arg nx) nx (assign_rtl curr p arg' nx') nx') ps ->
+                  Forall (sig_ok ss) ps ->
+                  forall off off' e e', Dk i e nx e' nx' ->
+        Dk i ((fix go (ps : list expr) (offset : Z) (nx : env) : env :=
+                 match ps with
+                 | [] => nx
+                 | p :: ps' => go ps' (offset + ewidth p) (assign_rtl curr p (rmask (ewidth p) (Z.shiftr arg offset)) nx)
+                 end) ps off e) nx
+              ((fix go (ps : list expr) (offset : Z) (nx : env) : env :=
+                 match ps with
+                 | [] => nx
+                 | p :: ps' => go ps' (offset + ewidth p) (assign_rtl curr p (rmask (ewidth p) (Z.shiftr arg' offset)) nx)
+                 end) ps off' e') nx').
+      { induction ps as [|p ps IHps]; intros HP HS off0 off0' e e' He; [exact He|].
+        inversion HP; subst. inversion HS; subst. apply IHps; auto.
+        eapply Dk_comp; [apply H1; auto|exact He]. }
+      apply G; auto. apply Dk_id.
+    - apply (proj1 (sig_ok_sw ss t cs)) in Hsig. simpl.
+      generalize (use_match (map fst cs)) as um. generalize (rmask (ewidth t) (eval_rtl curr t)) as tv.
+      intros tv um. clear IHt. induction cs as [|c cs IHc]; [apply Dk_id|].
+      inversion IHcs; subst. inversion Hsig; subst.
+      destruct (rtl_case_match um tv (fst c)); [apply H1; auto|]. apply IHc; auto.
+  Qed.
+  (* targets the compiler accepts: assignable, linear (no signal twice in one target), declared shapes, and selectors
+     (part offsets / array indices) that read well-formed state whatever `curr` is -- static targets (signals, slices,
+     concatenations, u/s casts) satisfy the last clause trivially *)
+  Definition lhs_ok (l : expr) : Prop :=
+    wf_lhs l = true /\ lin l = true /\ sig_ok ss l /\ forall curr, sel_ok curr l.
+
+  Fixpoint stmt_lhs_ok (s : stmt) : Prop :=
+    match s with
+    | SAssign l _ => lhs_ok l
+    | SSwitch _ cs =>
+        (fix go (cs : list (option (list pattern) * list stmt)) : Prop :=
+           match cs with
+           | [] => True
+           | c :: cs' => (fix run (l : list stmt) : Prop :=
+                            match l with [] => True | s' :: l' => stmt_lhs_ok s' /\ run l' end) (snd c) /\ go cs'
+           end) cs
+    end.
+
+  Lemma stmt_lhs_ok_sw t cs : stmt_lhs_ok (SSwitch t cs) <-> Forall (fun c => Forall stmt_lhs_ok (snd c)) cs.
+  Proof.
+    simpl. induction cs as [|c cs IH]; simpl; [split; auto|]. rewrite IH.
+    assert (Hrun : forall l, (fix run (l : list stmt) : Prop :=
+               match l with [] => True | s' :: l' => stmt_lhs_ok s' /\ run l' end) l <-> Forall stmt_lhs_ok l).
+    { induction l as [|x l IHl]; simpl; [split; auto|]. rewrite IHl.
+      split; [intros [H1 H2]; constructor; auto|intros H; inversion H; auto]. }
+    rewrite Hrun. split; [intros [H1 H2]; constructor; auto|intros H; inversion H; auto].
+  Qed.
+
+  Definition locf (f : env -> env) : Prop :=
+    (forall nx nx' i, Dk i (f nx) nx (f nx') nx') /\
+    (forall nx nx' i b, 0 <= b < width (ss i) -> Z.testbit (nx i) b = Z.testbit (nx' i) b ->
+                        Z.testbit (f nx i) b = Z.testbit (f nx' i) b).
+
+  Lemma exec_list_loc curr l : Forall (fun s => locf (exec_rtl curr s)) l -> locf (exec_rtl_list curr l).
+  Proof.
+    intros HF. unfold exec_rtl_list. split.
+    - induction HF as [|s l [H1 H2] HF IH]; intros nx nx' i; simpl; [apply Dk_id|].
+      eapply Dk_comp; [apply IH|apply H1].
+    - induction HF as [|s l [H1 H2] HF IH]; intros nx nx' i b Hb E; simpl; [exact E|].
+      apply IH; auto.
+  Qed.
+
+  Lemma exec_rtl_loc curr s : stmt_lhs_ok s -> locf (exec_rtl curr s).
+  Proof.
+    induction s as [l r|t cs IH] using stmt_ind'; intros Hok.
+    - destruct Hok as (H1 & H2 & H3 & H4). split.
+      + intros nx nx' i. simpl. apply assign_rtl_dich; auto.
+      + intros nx nx' i b Hb E. simpl. rewrite !(assign_rtl_bits ss) by auto.
+        destruct (wr curr l i b); auto.
+    - apply stmt_lhs_ok_sw in Hok.
+      assert (G : forall c, In c cs -> locf (exec_rtl_list curr (snd c))).
+      { intros c Hc. apply exec_list_loc. rewrite Forall_forall in IH, Hok.
+        pose proof (IH c Hc) as A. pose proof (Hok c Hc) as B. rewrite Forall_forall in A, B.
+        apply Forall_forall. intros x Hx. apply A; auto. }
+      split.
+      + intros nx nx' i. simpl.
+        generalize (use_match (map fst cs)) as um. generalize (rmask (ewidth t) (eval_rtl curr t)) as tv.
+        intros tv um. clear IH Hok. induction cs as [|c cs IHc]; [apply Dk_id|].
+        destruct (rtl_case_match um tv (fst c)).
+        * rewrite !exec_run_fold. apply (G c); left; auto.
+        * apply IHc. intros x Hx. apply G; right; auto.
+      + intros nx nx' i b Hb E. simpl.
+        generalize (use_match (map fst cs)) as um. generalize (rmask (ewidth t) (eval_rtl curr t)) as tv.
+        intros tv um. clear IH Hok. induction cs as [|c cs IHc]; [exact E|].
+        destruct (rtl_case_match um tv (fst c)).
+        * rewrite !exec_run_fold. apply (G c); auto. left; auto.
+        * apply IHc. intros x Hx. apply G; right; auto.
+  Qed.
+
+  Lemma exec_rtl_list_loc curr l : Forall stmt_lhs_ok l -> locf (exec_rtl_list curr l).
+  Proof.
+    intros H. apply exec_list_loc. rewrite Forall_forall in *. intros s Hs. apply exec_rtl_loc; auto.
+  Qed.
+End Locality.
+
+(* ---------- the commit masks stay inside the declared widths ---------- *)
+Section MaskBound.
+  Variable ss : nat -> shape.
+  Hypothesis Hss : forall i, wf_shape (ss i) = true.
+
+  Definition mbounded (acc : maskmap) : Prop := forall i b, Z.testbit (acc i) b = true -> 0 <= b < width (ss i).
+
+  Lemma wf_width_nonneg i : 0 <= width (ss i).
+  Proof. pose proof (Hss i) as H. unfold wf_shape in H. destruct (sgn (ss i)); lia. Qed.
+
+  Lemma ones_bit w b : 0 <= w -> Z.testbit (Z.shiftl 1 w - 1) b = true -> 0 <= b < w.
+  Proof.
+    intros Hw H. destruct (Z_lt_le_dec b 0) as [N|N]; [rewrite Z.testbit_neg_r in H by lia; discriminate|].
+    rewrite Z.shiftl_1_l in H. replace (2 ^ w - 1) with (Z.ones w) in H by (rewrite Z.ones_equiv; lia).
+    rewrite Z.testbit_ones_nonneg in H by lia. lia.
+  Qed.
+
+  Lemma lhs_mask_bounded lhs : sig_ok ss lhs -> forall mask acc, mbounded acc -> mbounded (lhs_mask lhs mask acc).
+  Proof.
+    induction lhs as [v s|j s|o a IHa|o a b0 IHa IHb|a lo hi IHa|a off w st IHa IHoff|l IH|t cs IHt IHcs]
+      using expr_ind'; intros Hsig mask acc Hb; simpl in Hsig; simpl; auto.
+    - intros i b H. rewrite mm_or_bit in H. destruct (Nat.eqb i j) eqn:E; [|auto].
+      apply Nat.eqb_eq in E. subst j s. apply orb_prop in H. destruct H as [H|H]; [auto|].
+      rewrite Z.land_spec in H. apply andb_prop in H. destruct H as [_ H].
+      apply ones_bit; auto. apply wf_width_nonneg.
+    - destruct o; auto.
+    - apply (proj1 (sig_ok_cat ss l)) in Hsig. rewrite Forall_forall in IH, Hsig.
+      assert (Hgo : forall ps mask acc, (forall p, In p ps -> In p l) -> mbounded acc ->
+        mbounded ((fix go (ps : list expr) (mask : Z) (acc : maskmap) : maskmap :=
+           match ps with [] => acc
+           | p :: ps' => go ps' (Z.shiftr mask (ewidth p)) (lhs_mask p mask acc)
+           end) ps mask acc)).
+      { induction ps as [|p ps IHps]; intros mask0 acc0 Hsub H0; auto.
+        apply IHps; [intros x Hx; apply Hsub; right; auto|]. apply IH; auto; [apply Hsub; left; auto|].
+        apply Hsig. apply Hsub; left; auto. }
+      apply Hgo; auto.
+    - apply (proj1 (sig_ok_sw ss t cs)) in Hsig. rewrite Forall_forall in IHcs, Hsig.
+      assert (Hgo : forall cs' acc, (forall c, In c cs' -> In c cs) -> mbounded acc ->
+        mbounded ((fix go (cs : list (option (list pattern) * expr)) (acc : maskmap) : maskmap :=
+           match cs with [] => acc | c :: cs' => go cs' (lhs_mask (snd c) mask acc) end) cs' acc)).
+      { induction cs' as [|c cs' IHc]; intros acc0 Hsub H0; auto.
+        apply IHc; [intros x Hx; apply Hsub; right; auto|]. apply IHcs; auto; [apply Hsub; left; auto|].
+        apply Hsig. apply Hsub; left; auto. }
+      apply Hgo; auto.
+  Qed.
+
+  Lemma stmt_mask_bounded s : stmt_lhs_ok ss s -> forall acc, mbounded acc -> mbounded (stmt_mask s acc).
+  Proof.
+    induction s as [l r|t cs IH] using stmt_ind'; intros Hok acc Hb; simpl.
+    - destruct Hok as (_ & _ & H3 & _). apply lhs_mask_bounded; auto.
+    - apply stmt_lhs_ok_sw in Hok. rewrite Forall_forall in IH, Hok.
+      assert (Hgo : forall cs' acc, (forall c, In c cs' -> In c cs) -> mbounded acc ->
+        mbounded ((fix go (cs : list (option (list pattern) * list stmt)) (acc : maskmap) : maskmap :=
+           match cs with
+           | [] => acc
+           | c :: cs' => go cs' ((fix run (ss : list stmt) (acc : maskmap) : maskmap :=
+                                    match ss with [] => acc | s' :: ss' => run ss' (stmt_mask s' acc) end) (snd c) acc)
+           end) cs' acc)).
+      { induction cs' as [|c cs' IHc]; intros acc0 Hsub H0; auto.
+        apply IHc; [intros x Hx; apply Hsub; right; auto|].
+        pose proof (IH c (Hsub c (or_introl eq_refl))) as IHb. pose proof (Hok c (Hsub c (or_introl eq_refl))) as Hokb.
+        rewrite Forall_forall in IHb, Hokb.
+        clear -IHb Hokb H0. revert acc0 H0. induction (snd c) as [|s l IHl]; intros acc0 H0; auto.
+        apply IHl; [intros x Hx; apply IHb; right; auto|intros x Hx; apply Hokb; right; auto|].
+        apply IHb; auto; [left; auto|apply Hokb; left; auto]. }
+      apply Hgo; auto.
+  Qed.
+
+  Lemma stmts_mask_bounded l : Forall (stmt_lhs_ok ss) l -> mbounded (stmts_mask l).
+  Proof.
+    intros HF. unfold stmts_mask.
+    assert (G : forall acc, mbounded acc -> mbounded (fold_left (fun acc s => stmt_mask s acc) l acc)).
+    { induction HF as [|s l Hs HF IH]; intros acc Hb; simpl; auto. apply IH. apply stmt_mask_bounded; auto. }
+    apply G. intros i b H. rewrite Z.bits_0 in H. discriminate.
+  Qed.
+End MaskBound.
+
+(* ---------- bits above the width of a value inside its shape ---------- *)
+Lemma in_range_high_unsigned s v b : sgn s = false -> in_range s v -> 0 <= width s <= b -> Z.testbit v b = false.
+Proof.
+  intros Hs Hr Hb. unfold in_range in Hr. rewrite Hs in Hr.
+  rewrite <- (Z.mod_small v (2 ^ width s)) by lia. apply Z.mod_pow2_bits_high. lia.
+Qed.
+
+Lemma in_range_high_signed s v b : sgn s = true -> 1 <= width s -> in_range s v -> width s - 1 <= b ->
+  Z.testbit v b = (v <? 0).
+Proof.
+  intros Hs Hw Hr Hb. unfold in_range in Hr. rewrite Hs in Hr.
+  destruct (Z_lt_le_dec v 0) as [N|N].
+  - replace (v <? 0) with true by lia.
+    replace v with (- (- v)) by lia. rewrite Z.bits_opp by lia.
+    rewrite <- (Z.mod_small (Z.pred (- v)) (2 ^ (width s - 1))) by lia.
+    rewrite Z.mod_pow2_bits_high by lia. reflexivity.
+  - replace (v <? 0) with false by lia.
+    rewrite <- (Z.mod_small v (2 ^ (width s - 1))) by lia. apply Z.mod_pow2_bits_high. lia.
+Qed.
+
+Lemma update_mask_high s m b : 0 <= width s <= b -> Z.testbit (update_mask s m) b = true ->
+  Z.testbit m b = true \/ (sgn s = true /\ Z.testbit m (width s - 1) = true).
+Proof.
+  intros Hb H. unfold update_mask in H. destruct (sgn s && Z.testbit m (width s - 1)) eqn:E; [|auto].
+  apply andb_prop in E. auto.
+Qed.
+
+(* ---------- one compiled process: the update() calls depend on `next` only through the bits of its own masks ---------- *)
+Section ProcLocal.
+  Variable ss : nat -> shape.
+  Variable tab : sigtab.
+  Hypothesis Hd : design_ok ss tab.
+
+  Lemma Hss' : forall i, wf_shape (ss i) = true.
+  Proof. intros i. apply (Hd i). Qed.
+
+  Definition pmask (l : list stmt) (i : nat) : Z := update_mask (sd_shape (tab i)) (stmts_mask l i).
+
+  Lemma masked_result_local (f : env -> env) (m : maskmap) e0 e0' i :
+    locf ss f -> mbounded ss m ->
+    (forall b, 0 <= b -> Z.testbit (update_mask (ss i) (m i)) b = true -> Z.testbit (e0 i) b = Z.testbit (e0' i) b) ->
+    Z.land (f e0 i) (update_mask (ss i) (m i)) = Z.land (f e0' i) (update_mask (ss i) (m i)).
+  Proof.
+    intros [L1 L2] Hm He. apply Z.bits_inj'. intros b Hb. rewrite !Z.land_spec.
+    destruct (Z.testbit (update_mask (ss i) (m i)) b) eqn:Eb; [|rewrite !andb_false_r; reflexivity].
+    rewrite !andb_true_r. pose proof (Hss' i) as Hwf.
+    destruct (Z_lt_le_dec b (width (ss i))) as [Lo|Hi].
+    - apply L2; [lia|apply He; auto].
+    - assert (Hw : 0 <= width (ss i)) by (unfold wf_shape in Hwf; destruct (sgn (ss i)); lia).
+      destruct (update_mask_high (ss i) (m i) b ltac:(lia) Eb) as [Hm1|[Hs Hm1]].
+      + apply Hm in Hm1. lia.
+      + assert (Hw1 : 1 <= width (ss i)) by (unfold wf_shape in Hwf; rewrite Hs in Hwf; lia).
+        destruct (L1 e0 e0' i) as [[A B]|[A B]].
+        * rewrite A, B. apply He; auto.
+        * rewrite (in_range_high_signed (ss i) _ b Hs Hw1 A) by lia.
+          rewrite (in_range_high_signed (ss i) _ b Hs Hw1 B) by lia.
+          rewrite <- (in_range_high_signed (ss i) _ (width (ss i) - 1) Hs Hw1 A) by lia.
+          rewrite <- (in_range_high_signed (ss i) _ (width (ss i) - 1) Hs Hw1 B) by lia.
+          apply L2; [lia|]. apply He; [lia|].
+          rewrite testbit_update_mask by (auto; lia). exact Hm1.
+  Qed.
+
+  Lemma rtl_writes_weqs n m e e' :
+    (forall i, Z.land (e i) (update_mask (sd_shape (tab i)) (m i)) = Z.land (e' i) (update_mask (sd_shape (tab i)) (m i))) ->
+    weqs (rtl_writes tab n m e) (rtl_writes tab n m e').
+  Proof.
+    intros H. unfold rtl_writes. induction (seq 0 n) as [|i l IH]; simpl; [constructor|].
+    destruct (m i =? 0); simpl; auto. constructor; auto. repeat split; simpl; auto.
+  Qed.
+
+  Lemma rtl_writes_mask n m e w : In w (rtl_writes tab n m e) -> w_mask w = update_mask (sd_shape (tab (w_sig w))) (m (w_sig w)).
+  Proof.
+    unfold rtl_writes. intros H. apply in_flat_map in H. destruct H as (i & _ & H).
+    destruct (m i =? 0); simpl in H; [tauto|]. destruct H as [<-|[]]. reflexivity.
+  Qed.
+
+  (* a process is mask-local for the mask table pm: it writes inside pm and reads `next` through pm only *)
+  Definition mask_local (pr : proc) (pm : nat -> Z) : Prop :=
+    (forall l res cu nx w, In w (r_writes (p_run pr l res cu nx)) -> Z.land (w_mask w) (Z.lnot (pm (w_sig w))) = 0) /\
+    (forall l res cu nx nx',
+       (forall i, Z.land (nth i nx 0) (pm i) = Z.land (nth i nx' 0) (pm i)) ->
+       r_local (p_run pr l res cu nx) = r_local (p_run pr l res cu nx') /\
+       r_delay (p_run pr l res cu nx) = r_delay (p_run pr l res cu nx') /\
+       weqs (r_writes (p_run pr l res cu nx)) (r_writes (p_run pr l res cu nx'))).
+
+  Lemma rtl_comb_mask_local n l inputs :
+    Forall (stmt_lhs_ok ss) l -> mask_local (rtl_comb tab n l inputs) (pmask l).
+  Proof.
+    intros Hl. split.
+    - intros lo res cu nx w H. simpl in H. apply rtl_writes_mask in H. rewrite H. apply Z.land_lnot_diag.
+    - intros lo res cu nx nx' _. simpl. repeat split. apply rtl_writes_weqs. intros i.
+      destruct (Hd i) as [Hsh _]. rewrite Hsh.
+      destruct (stmts_mask l i =? 0) eqn:E0.
+      { apply Z.eqb_eq in E0. rewrite E0. unfold update_mask. rewrite Z.bits_0, andb_false_r, !Z.land_0_r. reflexivity. }
+      apply masked_result_local.
+      + apply exec_rtl_list_loc; auto. apply Hss'.
+      + apply stmts_mask_bounded; auto. apply Hss'.
+      + intros b _ _. rewrite E0. reflexivity.
+  Qed.
+
+  Lemma rtl_sync_mask_local n l clk pol rst arst :
+    Forall (stmt_lhs_ok ss) l -> mask_local (rtl_sync tab n l clk pol rst arst) (pmask l).
+  Proof.
+    intros Hl. split.
+    - intros lo res cu nx w H. simpl in H. apply rtl_writes_mask in H. rewrite H. apply Z.land_lnot_diag.
+    - intros lo res cu nx nx' Hag. simpl. repeat split. apply rtl_writes_weqs. intros i.
+      destruct (_ && negb (stmts_mask l i =? 0) && negb (sd_reset_less (tab i))); [reflexivity|].
+      destruct (Hd i) as [Hsh _]. rewrite Hsh.
+      apply masked_result_local.
+      + apply exec_rtl_list_loc; auto. apply Hss'.
+      + apply stmts_mask_bounded; auto. apply Hss'.
+      + intros b Hb Hm. unfold env_of_list.
+        assert (E := f_equal (fun z => Z.testbit z b) (Hag i)). simpl in E.
+        rewrite !Z.land_spec in E. unfold pmask in E. rewrite Hsh, Hm, !andb_true_r in E. exact E.
+  Qed.
+End ProcLocal.
+
+(* processes that write one whole slot and never look at `next`: the clock and the two documented replacement patterns *)
+Definition whole (slot : nat) (i : nat) : Z := if Nat.eqb i slot then -1 else 0.
+
+Lemma mask_local_whole pr slot :
+  (forall l res cu nx w, In w (r_writes (p_run pr l res cu nx)) -> w_sig w = slot) ->
+  (forall l res cu nx nx', p_run pr l res cu nx = p_run pr l res cu nx') ->
+  mask_local pr (whole slot).
+Proof.
+  intros Hw Hr. split.
+  - intros l res cu nx w H. rewrite (Hw _ _ _ _ _ H). unfold whole. rewrite Nat.eqb_refl. apply Z.land_0_r.
+  - intros l res cu nx nx' _. rewrite (Hr l res cu nx nx'). repeat split. apply weqs_refl.
+Qed.
+
+Lemma clock_mask_local slot phase period : mask_local (clock_proc slot phase period) (whole slot).
+Proof.
+  apply mask_local_whole; [|reflexivity].
+  intros l res cu nx w H. simpl in H. unfold clock_run in H.
+  destruct l as [|[|x|x] l]; simpl in H; try tauto. destruct H as [<-|[]]. reflexivity.
+Qed.
+
+Lemma user_comb_mask_local out sh ins f : mask_local (user_comb out sh ins f) (whole out).
+Proof.
+  apply mask_local_whole; [|reflexivity]. intros l res cu nx w H. simpl in H. destruct H as [<-|[]]. reflexivity.
+Qed.
+
+Lemma user_sync_mask_local out sh init clk pol rst ins f :
+  mask_local (user_sync out sh init clk pol rst ins f) (whole out).
+Proof.
+  apply mask_local_whole; [|reflexivity]. intros l res cu nx w H. simpl in H.
+  destruct (tick_fmt res) as [|c [|r vals]]; simpl in H; try tauto.
+  destruct (negb (r =? 0)); simpl in H; [destruct H as [<-|[]]; reflexivity|].
+  destruct (negb (c =? 0)); simpl in H; [destruct H as [<-|[]]; reflexivity|tauto].
+Qed.
+
+(* ---------- the general sufficient condition ---------- *)
+Definition no_mask : nat -> Z := fun _ => 0.
+
+Definition masks_disjoint (pms : list (nat -> Z)) : Prop :=
+  forall a b i, a <> b -> Z.land (nth a pms no_mask i) (nth b pms no_mask i) = 0.
+
+(* any process list whose members are mask-local for pairwise-disjoint mask tables is write_disjoint *)
+Theorem disjoint_masks_write_disjoint ps pms :
+  Forall2 mask_local ps pms -> masks_disjoint pms -> write_disjoint ps.
+Proof.
+  intros HF HD. exists (fun k => nth k pms no_mask).
+  assert (G : forall k, mask_local (nth k ps no_proc) (nth k pms no_mask)).
+  { clear HD. induction HF as [|p pm ps pms Hp HF IH]; intros k.
+    - destruct k; simpl; (split; [intros ? ? ? ? ? []|intros; repeat split; constructor]).
+    - destruct k; simpl; auto. }
+  constructor.
+  - exact HD.
+  - intros k. apply (G k).
+  - intros k. apply (G k).
+Qed.
+
+(* ---------- every process system the simulator builds ---------- *)
+(* one entry per member of PySimEngine._processes: a compiled (fragment, domain) process, an added clock, or a user
+   process in one of the two documented replacement patterns *)
+Inductive cdesc :=
+| CComb (l : list stmt) (inputs : list nat)
+| CSync (l : list stmt) (clk : nat) (pol : Z) (rst : option nat) (arst : bool)
+| CClock (slot : nat) (phase period : Z)
+| CUComb (out : nat) (sh : shape) (ins : list nat) (f : expr)
+| CUSync (out : nat) (sh : shape) (init : Z) (clk : nat) (pol : bool) (rst : option nat) (ins : list nat) (f : expr).
+
+Definition cproc (tab : sigtab) (n : nat) (d : cdesc) : proc :=
+  match d with
+  | CComb l inputs => rtl_comb tab n l inputs
+  | CSync l clk pol rst arst => rtl_sync tab n l clk pol rst arst
+  | CClock slot phase period => clock_proc slot phase period
+  | CUComb out sh ins f => user_comb out sh ins f
+  | CUSync out sh init clk pol rst ins f => user_sync out sh init clk pol rst ins f
+  end.
+
+(* the bits a process may write: the LHSMaskCollector masks of a compiled process, the whole clock / output signal otherwise *)
+Definition cmask (tab : sigtab) (d : cdesc) : nat -> Z :=
+  match d with
+  | CComb l _ => pmask tab l
+  | CSync l _ _ _ _ => pmask tab l
+  | CClock slot _ _ => whole slot
+  | CUComb out _ _ _ => whole out
+  | CUSync out _ _ _ _ _ _ _ => whole out
+  end.
+
+Definition cdesc_ok (ss : nat -> shape) (d : cdesc) : Prop :=
+  match d with
+  | CComb l _ => Forall (stmt_lhs_ok ss) l
+  | CSync l _ _ _ _ => Forall (stmt_lhs_ok ss) l
+  | _ => True
+  end.
+
+(* each signal bit driven by at most one process (the driver-conflict rule) is all that write_disjoint needs *)
+Theorem compiled_write_disjoint ss tab n ds :
+  design_ok ss tab -> Forall (cdesc_ok ss) ds -> masks_disjoint (map (cmask tab) ds) ->
+  write_disjoint (map (cproc tab n) ds).
+Proof.
+  intros Hd Hok HD. apply (disjoint_masks_write_disjoint _ (map (cmask tab) ds)); auto.
+  clear HD. induction Hok as [|d ds Hdk Hok IH]; simpl; constructor; auto.
+  destruct d; simpl in *.
+  - apply (rtl_comb_mask_local ss tab Hd); auto.
+  - apply (rtl_sync_mask_local ss tab Hd); auto.
+  - apply clock_mask_local.
+  - apply user_comb_mask_local.
+  - apply user_sync_mask_local.
+Qed.
+
+Theorem run_order_independent_compiled ss tab n ds orc orc' sfuel tfuel t_end fuel st :
+  design_ok ss tab -> Forall (cdesc_ok ss) ds -> masks_disjoint (map (cmask tab) ds) -> oracle_equiv orc orc' ->
+  run (map (cproc tab n) ds) orc sfuel tfuel t_end fuel st = run (map (cproc tab n) ds) orc' sfuel tfuel t_end fuel st.
+Proof.
+  intros Hd Hok HD OE. apply run_order_independent; auto. eapply compiled_write_disjoint; eauto.
+Qed.
+
+(* non-vacuity: 3 compiled processes in 2 clock domains; the signed register R (slot 3) is split between the domains
+   (low half clocked by slot 0, high half including the sign bit by slot 1) and a comb process owns half of S (slot 4) *)
+Definition ex3_tab : sigtab := fun i =>
+  match i with
+  | 0%nat | 1%nat => Build_sigdesc (Sh 1 false) 0 false
+  | 2%nat => Build_sigdesc (Sh 4 false) 3 false
+  | 3%nat => Build_sigdesc (Sh 8 true) (-3) false
+  | 4%nat => Build_sigdesc (Sh 6 false) 0 false
+  | _ => Build_sigdesc (Sh 0 false) 0 false
+  end.
+Definition ex3_ss : nat -> shape := fun i => sd_shape (ex3_tab i).
+Definition ex3_ds : list cdesc :=
+  [CComb [SAssign (ESlice (ESig 4 (Sh 6 false)) 0 3) (ESig 2 (Sh 4 false))] [2%nat];
+   CSync [SAssign (ESlice (ESig 3 (Sh 8 true)) 0 4)
+                  (EOp2 OAdd (ESlice (ESig 3 (Sh 8 true)) 0 4) (EConst 1 (Sh 1 false)))] 0 1 None false;
+   CSync [SSwitch (ESlice (ESig 2 (Sh 4 false)) 0 1)
+                  [(Some [[Some true]], [SAssign (ESlice (ESig 3 (Sh 8 true)) 4 8) (ESig 2 (Sh 4 false))])]] 1 1 None false].
+
+Lemma ex3_design_ok : design_ok ex3_ss ex3_tab.
+Proof. intros i. split; [reflexivity|]. destruct i as [|[|[|[|[|i]]]]]; reflexivity. Qed.
+
+Lemma ex3_ok : Forall (cdesc_ok ex3_ss) ex3_ds.
+Proof.
+  repeat constructor; simpl; auto.
+Qed.
+
+Lemma ex3_disjoint : masks_disjoint (map (cmask ex3_tab) ex3_ds).
+Proof.
+  intros a b i N.
+  destruct a as [|[|[|a]]], b as [|[|[|b]]]; try congruence;
+    try (destruct a; simpl; apply Z.land_0_l); try (destruct b; simpl; apply Z.land_0_r);
+    destruct i as [|[|[|[|[|i]]]]]; vm_compute; reflexivity.
+Qed.
